@@ -33,6 +33,14 @@ pub fn writers(thorough: bool) -> Report {
                     w.write_all(&[]).unwrap();
                     for i in 0..n { if i + 1 == n || cut >> i & 1 == 1 { w.write_all(&input[start..=i]).unwrap(); t.write_all(&input[start..=i]).unwrap(); start = i + 1; } }
                 }
+                // the same writes, finished with unwrap() instead of drop: the remainder must be emitted as well
+                {
+                    let mut w = mapped(Vec::new(), b'\n', |mut v| { let mut o = vec![b'[']; o.append(&mut v); o.push(b']'); o });
+                    let mut start = 0;
+                    for i in 0..n { if i + 1 == n || cut >> i & 1 == 1 { w.write_all(&input[start..=i]).unwrap(); start = i + 1; } }
+                    let got = w.unwrap();
+                    if got != exp { r.violation("mapped_write_unwrap", "MappedWrite finished with unwrap(): output differs from the mapped segments (+ non-empty remainder)", format!("input={:?} chunking={cut:b}", String::from_utf8_lossy(&input)), format!("{:?}", String::from_utf8_lossy(&exp)), format!("{:?}", String::from_utf8_lossy(&got))); }
+                }
                 if out != exp { r.violation("mapped_write", "MappedWrite output differs from the mapped segments (+ non-empty remainder)", format!("input={:?} chunking={cut:b}", String::from_utf8_lossy(&input)), format!("{:?}", String::from_utf8_lossy(&exp)), format!("{:?}", String::from_utf8_lossy(&out))); }
                 if a != input || b != input { r.violation("tee_write", "TeeWrite did not give both targets the full input", format!("{:?}", input), "both == input".into(), format!("{a:?} / {b:?}")); }
             }
@@ -48,5 +56,60 @@ pub fn writers(thorough: bool) -> Report {
         if a.got != input || b.got != input { r.violation("tee_write", "TeeWrite did not give both targets the full input exactly once (targets accepting at most a/b bytes per write call)", format!("{:?} with per-call limits ({ma}, {mb})", String::from_utf8_lossy(input)), "both == input".into(), format!("{:?} / {:?}", String::from_utf8_lossy(&a.got), String::from_utf8_lossy(&b.got))); }
     } }
     r.samples.push("input \"x\\nx\" chunked x | \\nx -> \"[x\\n][x]\"".into());
+    r
+}
+
+// C19 (first sentence) bounded stand-in: the real output_and_write_streams / spawn_and_write_streams with scripted child processes.
+// Threads, pipes and OS processes are outside any contract the verifier can state, so this clause is only ever checked up to the bound.
+pub fn streams(thorough: bool) -> Report {
+    use libherokubuildpack::command::CommandExt;
+    use std::process::Command;
+    use std::sync::mpsc;
+    use std::time::Duration;
+    let mut r = Report::new(
+        "child processes (sh) writing O bytes 'o' to stdout and E bytes 'e' to stderr for O, E in {0, 1, 100, 70000, 300000} (up to ~5 pipe buffers) in 4 patterns (stderr first, stdout first, 20 alternating slices, both at once from two background jobs) and exiting with status 7, run through output_and_write_streams and spawn_and_write_streams with Vec writers: the call returns within the watchdog time (no deadlock), the returned output and the supplied writers each hold exactly the bytes of their stream, the exit status is passed on; non-trivial = runs where a stream exceeds one pipe buffer",
+        if thorough { "5 x 5 volumes x 4 patterns x 2 entry points, watchdog 12 s" } else { "5 x 5 volumes x 4 patterns (output_and_write_streams), large volumes also spawn_and_write_streams; watchdog 12 s" },
+    );
+    let vols = [0usize, 1, 100, 70_000, 300_000];
+    let mut blocked = 0;
+    for &o in &vols { for &e in &vols { for pattern in 0..4 { for entry in 0..2 {
+        if entry == 1 && !thorough && o.max(e) < 70_000 { continue; }
+        if blocked >= 2 { continue; }   // two blocked runs are reported; every further one would only cost another watchdog period
+        r.evaluations += 1; if o.max(e) >= 70_000 { r.nontrivial += 1; }
+        let emit = |n: usize, c: char, fd: &str| if n == 0 { String::from(":") } else { format!("head -c {n} /dev/zero | tr '\\0' {c} {fd}") };
+        let script = match pattern {
+            0 => format!("{}; {}; exit 7", emit(e, 'e', ">&2"), emit(o, 'o', "")),
+            1 => format!("{}; {}; exit 7", emit(o, 'o', ""), emit(e, 'e', ">&2")),
+            2 => format!("i=0; while [ $i -lt 20 ]; do {}; {}; i=$((i+1)); done; {}; {}; exit 7", emit(o / 20, 'o', ""), emit(e / 20, 'e', ">&2"), emit(o % 20, 'o', ""), emit(e % 20, 'e', ">&2")),
+            _ => format!("({}) & ({}) & wait; exit 7", emit(o, 'o', ""), emit(e, 'e', ">&2")),
+        };
+        let input = format!("stdout {o} bytes, stderr {e} bytes, pattern {pattern} (0 stderr first, 1 stdout first, 2 alternating, 3 concurrent), entry {entry} (0 output_and_write_streams, 1 spawn_and_write_streams): sh -c {script:?}");
+        let (tx, rx) = mpsc::channel();
+        let sc = script.clone();
+        std::thread::spawn(move || {
+            let (mut wo, mut we) = (Vec::new(), Vec::new());
+            let res = if entry == 0 {
+                Command::new("sh").arg("-c").arg(&sc).output_and_write_streams(&mut wo, &mut we).map(|out| (out.status.code(), Some((out.stdout, out.stderr))))
+            } else {
+                Command::new("sh").arg("-c").arg(&sc).spawn_and_write_streams(&mut wo, &mut we).and_then(|mut c| c.wait()).map(|st| (st.code(), None))
+            };
+            let _ = tx.send((res.map_err(|e| e.to_string()), wo, we));
+        });
+        match rx.recv_timeout(Duration::from_secs(12)) {
+            Err(_) => {
+                blocked += 1;
+                r.violation("stream_returns", "the call returns once both streams close, whatever the volume and interleaving (watchdog expired: deadlock)", input, "returns".into(), "still blocked after 12 s".into());
+                let _ = Command::new("pkill").args(["-P", &std::process::id().to_string()]).status();   // unblock the leaked thread's child
+            }
+            Ok((Err(e), _, _)) => r.violation("stream_runs", "running the child failed", input, "Ok".into(), e),
+            Ok((Ok((code, captured)), wo, we)) => {
+                let (wanto, wante) = (vec![b'o'; o], vec![b'e'; e]);
+                if wo != wanto || we != wante { r.violation("stream_complete", "the supplied writers receive every byte of their stream", input.clone(), format!("{o} x 'o' / {e} x 'e'"), format!("stdout writer {} bytes ({} 'o'), stderr writer {} bytes ({} 'e')", wo.len(), wo.iter().filter(|b| **b == b'o').count(), we.len(), we.iter().filter(|b| **b == b'e').count())); }
+                if let Some((so, se)) = captured { if so != wanto || se != wante { r.violation("stream_complete", "the returned output holds every byte of each stream", input.clone(), format!("{o} / {e} bytes"), format!("{} / {} bytes", so.len(), se.len())); } }
+                if code != Some(7) { r.violation("stream_status", "the child's exit status is passed on", input, "Some(7)".into(), format!("{code:?}")); }
+            }
+        }
+    } } } }
+    r.samples.push("stderr 300000 bytes before stdout 1 byte: returns, both complete".into());
     r
 }
